@@ -151,6 +151,10 @@ def aux_refs(ctx):
         holder.aux_data["s"] = g.AuxData({(u, 1) for u in uu}, "set<tuple<UUID,uint8_t>>")
     buf = io.BytesIO()
     ir.save_protobuf_file(buf)
+    first = g.IR.load_protobuf_file(io.BytesIO(buf.getvalue()))
+    for holder in [first] + list(first.modules):     # an earlier load of the same file, fully read
+        for k in ("u", "m", "s"):
+            holder.aux_data[k].data
     ir2 = g.IR.load_protobuf_file(io.BytesIO(buf.getvalue()))
     n = 0
     for holder in [ir2] + list(ir2.modules):
